@@ -217,6 +217,10 @@ func init() {
 			c.Run.Violate(ev.Violation{Pred: pred, Sig: map[string]any{"rules": ts}, What: what, Replay: map[string]any{"rules": ts}})
 		}
 		if c.Replay != nil {
+			if _, ok := c.Replay["used"]; ok {
+				c07Used(c)
+				return
+			}
 			var idx []int
 			for _, t := range c.Replay["rules"].([]any) {
 				i, ok := byText[t.(string)]
@@ -602,6 +606,9 @@ func init() {
 			})
 		}
 		c.Run.Set("engine_selections", engSelections)
+		usedEvals, usedRules := c07Used(c)
+		c.Run.Set("used_rule_comparisons", usedEvals)
+		c.Run.Set("used_rule_pool", int64(usedRules))
 
 		c.Run.Sample(map[string]any{"pair": []string{pool[1].text, pool[n-1].text}, "first_outranks_second": M.get(1, n-1)})
 		c.Run.Sample(map[string]any{"rule": pool[n/2].text, "key(class,specific,count)": pool[n/2].key()})
@@ -612,9 +619,9 @@ func init() {
 		c.Run.Set("modifier_additions_checked", additions)
 		c.Run.Set("priority_keys", int64(len(reps)))
 		c.Run.Set("selection_evaluations", selections)
-		c.Run.Set("evaluations", pairs+selections+additions)
+		c.Run.Set("evaluations", pairs+selections+additions+usedEvals)
 		c.Run.Set("distinct_nontrivial", int64(n))
-		c.Run.Set("rule", fmt.Sprintf("pool = every parseable combination of 10 feature slots (%d rules, all distinct and non-trivial); all ordered pairs and all triples of the pool through a bit matrix; every pool rule x every addable modifier; every list of <=%d priority-key representatives in every permutation through NewMatchingResult and GetDNSBasicRule", n, k))
+		c.Run.Set("rule", fmt.Sprintf("pool = every parseable combination of 10 feature slots (%d rules, all distinct and non-trivial); all ordered pairs and all triples of the pool through a bit matrix; every pool rule x every addable modifier; every list of <=%d priority-key representatives in every permutation through NewMatchingResult and GetDNSBasicRule; used-rule layer: every ordered pair of a second pool (9 patterns incl. the any-URL ones x 10 modifier sets x exception) with each side freshly parsed or already matched against 4 requests", n, k))
 		c.Run.Set("exhaustive", exhaustive)
 		c.Run.Assumption("documented criteria: verdict class, then $domain-specific over generic, then the number of modifiers written; $redirect cannot be parsed and is not in the pool")
 	})
